@@ -110,7 +110,11 @@ def all_returns(fn, b):
     lists = {tr[0] for tr in trs}
     out = []
     for r, tr in zip(rets, trs):
-        out.append((r, tr, pcs is not None and any(_emptied(l) in lists for l in pcs.of(r))))
+        empt = [_emptied(l) for l in (pcs.of(r) if pcs is not None else ())]
+        empt = [x for x in empt if x is not None]
+        # ... or where something the masks of another return are built from is empty and this one returns no interval at all
+        derived = tr[0] == ("list", ()) and any(x not in lists and any(mentions(m, x) for m in lists if m != tr[0]) for x in empt)
+        out.append((r, tr, pcs is not None and (any(x in lists for x in empt) or derived)))
     return out
 
 
@@ -350,21 +354,40 @@ def width_slicer(prog, rep):
         half = ("bin", "*", ("const", 0.5), w)
         okc = False
         C = None
+        S = None
+        why_e = f"found {show(E)[:200]}"
         if E[0] == "call" and E[1] == G("numpy.append") and len(E[2]) == 2:
             lows, last = E[2]
-            # C is whatever satisfies lows == C - w/2
-            if lows[0] == "bin" and lows[1] == "-" and algebra.same(lows[3], half):
-                C = lows[2]
-                okc = algebra.same(last, ("bin", "+", ("sub", C, ("const", -1)), half))
-        rep.check(okc, "C10.refs", f"{q}:edges", fn.where(), "E = append(C - w/2, C[-1] + w/2)",
-                  f"the edge array must be the interval centres -/+ half the width; found {show(E)[:200]}")
-        if C is not None:
-            okg = False
-            if C[0] == "bin" and C[1] == "+" and algebra.same(C[3], half) and C[2][0] == "call" and C[2][1] == G("numpy.arange") and len(C[2][2]) == 3:
-                a0, a1, a2 = C[2][2]
-                okg = a2 == w and a1[0] == "bin" and a1[1] == "+" and algebra.same(a1[3], w)
-            rep.check(okg, "C10.refs", f"{q}:centres", fn.where(), "C = arange(min, max + w, w) + w/2",
-                      f"centres must be arange(min, max + width, width) + width/2; found {show(C)[:200]}")
+            # the lower edges are the interval starts S = arange(min, max + w, w) THEMSELVES: the first edge is then exactly the
+            # lower limit (an edge rebuilt as (S + w/2) - w/2 is not, and the observation on a non-zero lower limit is in no interval)
+            if lows[0] == "call" and lows[1] == G("numpy.arange") and len(lows[2]) == 3:
+                S = lows
+                a0, a1, a2 = S[2]
+                okc = a2 == w and a1[0] == "bin" and a1[1] == "+" and algebra.same(a1[3], w) and algebra.same(last, ("bin", "+", ("sub", S, ("const", -1)), w))
+            elif lows[0] == "bin" and lows[1] == "-":
+                why_e = (f"the lower edges are recomputed as {show(lows)[:80]}: in floating point (s + w/2) - w/2 is not s, so the lowest edge is not the lower "
+                         "limit and an observation exactly on a non-zero lower limit belongs to no interval; use the starts arange(min, max + w, w) themselves")
+        rep.check(okc, "C10.refs", f"{q}:edges", fn.where(), "E = append(S, S[-1] + w) with S = arange(min, max + w, w)",
+                  "the edge array must be the interval starts arange(min, max + width, width) and one more edge a width above the last; " + why_e)
+        if S is not None:
+            # np.arange(min, max + w, w) is EMPTY when the data lie below the lower limit: S[-1] then raises IndexError where
+            # slice_ should report too few intervals
+            for st in cfg_of(fn).all_stmts():
+                for node in _own_nodes(st):
+                    if isinstance(node, ast.Subscript) and isinstance(node.ctx, ast.Load) and _const_int(node.slice) is not None and b.term(node.value, st) == S:
+                        lits = pcs.of(st)
+                        okn = _nonzero(lits, ("call", G("len"), (S,), ())) or _nonzero(lits, ("attr", S, "size")) or _nonzero(lits, S)
+                        rep.check(okn, "C10.min", f"{q}:nonempty:{ast.unparse(node)[:30]}", fn.where(st), "an element of the interval starts is read only where there is one",
+                                  f"{ast.unparse(node)[:40]} is read although np.arange(min, max + width, width) is empty when nothing lies between the limits "
+                                  "(IndexError instead of the RuntimeError of slice_)")
+            # the centres the references start from: S + w/2
+            C = ("bin", "+", S, half)
+            cdefs = [st for st in cfg_of(fn).all_stmts() if isinstance(st, ast.Assign) and algebra.same(b.term(st.value, st), C)]
+            if cdefs:
+                C = b.term(cdefs[0].value, cdefs[0])
+            rep.check(bool(cdefs), "C10.refs", f"{q}:centres", fn.where(cdefs[0]) if cdefs else fn.where(), "C = S + w/2",
+                      "the interval centres (the default reference) must be the starts plus half the width")
+        if S is not None and C is not None:
             # reference shifts
             shifts = {}
             cfg = cfg_of(fn)
@@ -543,7 +566,8 @@ def refs_guard(prog, rep):
         for kind in ("center", "right", "left", "otherstr", "callable", "other"):
             hit = []
             for st, exc in raises:
-                vals = [_eval_ref(l, kind) for l in pcs.of(st)]
+                # literals that say nothing about the reference (e.g. 'some interval exists') do not select the kind
+                vals = [_eval_ref(l, kind) for l in pcs.of(st) if mentions(l, ("attr", SELF, "reference")) or l[0] == "const" or (l[0] == "not" and l[1][0] == "const")]
                 if None in vals:
                     hit.append(f"{exc}?")
                 elif all(vals):
